@@ -173,6 +173,20 @@ PROPS = {
         "trusted": RUNTIME_TRUST,
         "assumptions": ["partial: that a connection attempt to a bound, listening socket succeeds is the kernel's backlog behaviour, observed by the oracle"],
     },
+    "C13": {
+        "lean": ["GldapModel.Props.C13"], "audit": "GldapModel/Audit/C13.lean",
+        "inventory": ["conn.serveRequests", "conn.initConn", "Request.StartTLS", "conn.readPacket", "newResponseWriter"],
+        "streams": [{"stream": "c13", "n_quick": 30, "n_thorough": 500, "timeout_quick": 900, "timeout_thorough": 3000}],
+        "trusted": RUNTIME_TRUST + ["crypto/tls: after a successful handshake every byte on the connection is TLS-protected"],
+        "assumptions": ["partial: the theorem covers gldap's plumbing (the StartTLS handler runs on the connection goroutine, nothing is read meanwhile, writers are created per iteration after the swap); scope: no earlier handler is still in flight when StartTLS is read (RFC 4511 4.14.1 forbids outstanding operations)"],
+    },
+    "C18": {
+        "lean": ["GldapModel.Props.C18"], "audit": "GldapModel/Audit/C18.lean",
+        "inventory": ["Server.Run", "td.GetTLSConfig", "WithTLSConfig", "td.WithMTLS"],
+        "streams": [{"stream": "c18", "n_quick": 30, "n_thorough": 500, "timeout_quick": 900, "timeout_thorough": 3000}],
+        "trusted": RUNTIME_TRUST + ["crypto/tls: a read yields plaintext only after a handshake satisfying the tls.Config (`beh` in the model)"],
+        "assumptions": ["partial: the handshake verdict is crypto/tls's; the model covers the plumbing (listener wrapped before the accept loop, loop accepts on the wrapped listener, WithMTLS sets RequireAndVerifyClientCert and the CA pool)"],
+    },
     "C14": {
         "lean": ["GldapModel.Props.C14"],
         "audit": "GldapModel/Audit/C14.lean",
